@@ -128,33 +128,45 @@ func runC11(c *Ctx) {
 			}
 			c.Check("C11-R2", f.Key()+" call:loadFn#"+itoa(i+1)+" on miss and below capacity", c.Pos(h.Node), miss && below, "a load must be on the nil edge of the look-up and the false edge of the capacity test")
 		}
-		// automatic limit set before any load
-		for _, cb := range g.CondBlocks() {
-			be, ok := ast.Unparen(cb.Cond).(*ast.BinaryExpr)
-			if !ok || be.Op != token.LEQ || len(core.CallsTo(info, be.X, false, "envconfig.MaxRunners")) != 1 {
-				continue
+		// automatic limit set before any load: no path from the entry reaches a load unless it passed the
+		// os.Setenv of the limit or left a test of exactly `MaxRunners() <= 0` on its false edge (a test with
+		// a further conjunct — "… && NumGPU != 0" — does not establish that a limit exists)
+		isSetLimit := func(n ast.Node) bool {
+			for _, se := range core.CallsTo(info, n, false, "os.Setenv") {
+				if k, isS := core.ConstString(info, se.Args[0]); isS && k == "OLLAMA_MAX_LOADED_MODELS" {
+					return true
+				}
 			}
-			bad := ""
-			g.Walk(core.StartOf(cb.B.Succs[0]), func(n ast.Node, l core.Loc) bool {
-				for _, se := range core.CallsTo(info, n, false, "os.Setenv") {
-					if k, isS := core.ConstString(info, se.Args[0]); isS && k == "OLLAMA_MAX_LOADED_MODELS" {
-						return true
-					}
+			return false
+		}
+		nTests := 0
+		before, _ := g.CountPathsEdges(g.Entry(), func(ast.Node) int { return 0 }, func(n ast.Node, l core.Loc) bool { return isSetLimit(n) }, nil,
+			func(cond ast.Expr, takenTrue bool) bool {
+				be, ok := ast.Unparen(cond).(*ast.BinaryExpr)
+				if !ok || len(core.CallsTo(info, be.X, false, "envconfig.MaxRunners")) != 1 {
+					return true
 				}
-				for _, ld := range loads {
-					if ld.Loc == l {
-						bad = c.Pos(ld.Node)
-					}
+				if _, isCall := ast.Unparen(be.X).(*ast.CallExpr); !isCall {
+					return true
 				}
-				return false
+				v, isC := core.ConstInt(info, be.Y)
+				if !isC {
+					return true
+				}
+				// the edge on which a positive limit is known is never "unlimited"
+				switch {
+				case (be.Op == token.LEQ && v == 0) || (be.Op == token.LSS && v == 1) || (be.Op == token.EQL && v == 0):
+					nTests++
+					return takenTrue
+				case (be.Op == token.GTR && v == 0) || (be.Op == token.GEQ && v == 1) || (be.Op == token.NEQ && v == 0):
+					nTests++
+					return !takenTrue
+				}
+				return true
 			})
-			domAll := true
-			for _, ld := range loads {
-				if !g.Dominates(g.CondLoc(cb.B), ld.Loc) {
-					domAll = false
-				}
-			}
-			c.Check("C11-R2", f.Key()+" automatic limit set before the first load", c.Pos(cb.Cond), bad == "" && domAll, "with MaxRunners() <= 0 a load is reachable without OLLAMA_MAX_LOADED_MODELS being set: "+bad)
+		for i, ld := range loads {
+			_, unlimited := before[ld.Loc]
+			c.Check("C11-R2", f.Key()+" call:loadFn#"+itoa(i+1)+" only with a limit in force", c.Pos(ld.Node), !unlimited && nTests > 0, "with MaxRunners() <= 0 this load is reachable without OLLAMA_MAX_LOADED_MODELS having been set (the automatic limit must be established by whichever request comes first)")
 		}
 		// R3: after a victim is chosen, no disposition before the unloadedCh receive
 		nV := 0
